@@ -120,15 +120,29 @@ Definition validate_fp_params (signed : bool) (n_bits n_frac : Z) : result (Z * 
   bind (py_float_of_int (2 ^ n_int - 1)) (fun n =>
   Ok (min_v, b64_div n d))).
 
-Definition float_to_fix (signed : bool) (n_bits n_frac : Z) (x : b64) : result Z :=
-  let mask := 2 ^ n_bits - 1 in
+(* shared prefix: validation, clip of the unscaled value, scaling, int() *)
+Definition fix_clipped_scaled (signed : bool) (n_bits n_frac : Z) (x : b64) : result (b64 * Z) :=
   bind (validate_fp_params signed n_bits n_frac) (fun mm =>
   bind (py_float_of_int (fst mm)) (fun lo =>
   let value := np_clip x lo (snd mm) in
   bind (py_float_of_int (2 ^ n_frac)) (fun sc =>
   bind (py_int (b64_mult value sc)) (fun i =>
-  let fp_val := if Bltb value b64_zero then 2 ^ n_bits + i else i in
-  if (0 <=? fp_val) && (fp_val <? 2 ^ (n_bits + 1)) then Ok (Z.land fp_val mask) else OtherError)))).
+  Ok (value, i))))).
+
+(* the code after commit "fix: deprecated float_to_fix wrapped instead of saturating for wide formats" *)
+Definition float_to_fix (signed : bool) (n_bits n_frac : Z) (x : b64) : result Z :=
+  let mask := 2 ^ n_bits - 1 in
+  let max_int := 2 ^ (n_bits - (if signed then 1 else 0)) - 1 in
+  bind (fix_clipped_scaled signed n_bits n_frac x) (fun vi =>
+  let fp_val := if Bltb (fst vi) b64_zero then 2 ^ n_bits + snd vi else Z.min (snd vi) max_int in
+  if (0 <=? fp_val) && (fp_val <? 2 ^ (n_bits + 1)) then Ok (Z.land fp_val mask) else OtherError).
+
+(* the code as found *)
+Definition float_to_fix_orig (signed : bool) (n_bits n_frac : Z) (x : b64) : result Z :=
+  let mask := 2 ^ n_bits - 1 in
+  bind (fix_clipped_scaled signed n_bits n_frac x) (fun vi =>
+  let fp_val := if Bltb (fst vi) b64_zero then 2 ^ n_bits + snd vi else snd vi in
+  if (0 <=? fp_val) && (fp_val <? 2 ^ (n_bits + 1)) then Ok (Z.land fp_val mask) else OtherError).
 
 Definition fix_to_float (signed : bool) (n_bits n_frac : Z) (w : Z) : result b64 :=
   bind (validate_fp_params signed n_bits n_frac) (fun _ =>
@@ -189,6 +203,9 @@ Fixpoint mismatches {A} (f : A -> result Z) (cases : list (A * result Z)) (i : Z
   | [] => []
   | (a, r) :: t => if rz_eqb (f a) r then mismatches f t (i + 1) else i :: mismatches f t (i + 1)
   end.
+
+Definition roundtrip (signed : bool) (n_bits n_frac : Z) (v : Z) : result Z :=
+  bind (fp_to_float n_frac v) (float_to_fp signed n_bits n_frac).
 
 Definition on_bits (f : b64 -> result Z) (z : Z) : result Z := f (b64_of_bits z).
 Definition to_bits (f : Z -> result b64) (v : Z) : result Z := rbits (f v).
